@@ -1,10 +1,12 @@
 import Driver.C01
+import Driver.C05
 import Driver.C06
 import Driver.C07
 import Driver.C08
 import Driver.C09
 import Driver.C10
 import Driver.C11
+import Driver.C12
 import Driver.C13
 import Driver.C15
 import Driver.C17
@@ -16,12 +18,14 @@ namespace Driver
 def dispatch (p : String) (rest : List String) : String :=
   match p with
   | "C01" => C01.handle rest
+  | "C05" => C05.handle rest
   | "C06" => C06.handle rest
   | "C07" => C07.handle rest
   | "C08" => C08.handle rest
   | "C09" => C09.handle rest
   | "C10" => C10.handle rest
   | "C11" => C11.handle rest
+  | "C12" => C12.handle rest
   | "C13" => C13.handle rest
   | "C15" => C15.handle rest
   | "C17" => C17.handle rest
